@@ -10,15 +10,16 @@ from ..worldprop import base_outcome, completion, REAL_VS_STUB  # noqa
 
 np = sut.np
 ID = "C10"
-RUNS = {"quick": 2500, "thorough": 70000}
+RUNS = {"quick": 2000, "thorough": 70000}
 BUDGET = {"quick": 45, "thorough": 780}
-RULE = ("each run = a reference world plus transformed twins: identical rebuild, permuted station registration order, "
+RULE = ("each run = a reference world plus transformed twins: identical rebuild, JSON clone of the initial simulator, permuted station registration order, "
         "permuted constraint order and term order, permuted session list order, all events shifted by k in {1,7,100}; "
         "after the pool, a sample of worlds is re-run in a fresh interpreter under another PYTHONHASHSEED; scripted, "
         "uncontrolled and finite-rate greedy parties; non-trivial = a non-identity permutation with >=1 binding constraint "
         "(some pilot below its station maximum while demand remains); distinct = history signature + transformation set")
 PROBES = ["rebuild_pair", "registration_permuted", "constraints_permuted", "sessions_permuted", "shift_pair",
-          "hashseed_fresh_interpreter", "sorted_finite_world", "guard_band_skips"]
+          "hashseed_fresh_interpreter", "sorted_finite_world", "guard_band_skips", "json_clone_pair", "json_clone_permuted_pair",
+          "uninterrupted_world"]
 FAULT_DIMENSION = "reordering / hash seed / time shift as metamorphic schedule dimension (no faults injected)"
 ASSUMPTIONS = ["sorted parties are compared under permutations only when every priority key gap and feasibility margin of the "
                "reference run is outside a 1e-7 guard band (else inconclusive)",
@@ -28,7 +29,7 @@ DETERMINISTIC = True
 P_SCRIPT = world.profile(party={"scripted": 3, "uncontrolled": 2}, constraints={"three": 3, "single": 1, "none": 1},
                          noise=0.0, stations=(2, 6))
 P_SORTED = world.profile(party={"greedy": 1}, evse_kinds={"finite": 1}, constraints={"three": 4, "single": 1},
-                         binding=(0.15, 0.8), estimator={"none": 1}, uninterrupted=0.0, noise=0.0, hot=0.1, stations=(2, 6),
+                         binding=(0.15, 0.8), estimator={"none": 1}, uninterrupted=0.4, noise=0.0, hot=0.1, stations=(2, 6),
                          heterovolt=0.9)
 
 
@@ -109,9 +110,16 @@ def sorted_conclusive(sc, tr):
         vec = [c["schedule"][s][0] for s in ids]
         order = [x for _, x in sorted(zip(keys, act), key=lambda z: z[0])]
         rates = [0.0] * len(ids)
+        if sc["party"].get("uninterrupted"):
+            # minimum pilots are pre-granted; only calls in which every minimum fits with margin are compared
+            for x in act:
+                rates[x["i"]] = x["min_pilot"]
+                ok, concl = alloc.feasible(cons, phases, rates, guard=1e-7)
+                if not (ok and concl):
+                    return False
         for x in order:
             i = x["i"]
-            ub = min(x["max_pilot"], x["rem_ap"])
+            ub = min(max(x["max_pilot"], rates[i]), x["rem_ap"])
             for a in evse_levels(x["evse"]):
                 if abs(a - ub) < 1e-7 and ub != x["max_pilot"]:
                     return False
@@ -154,8 +162,13 @@ def check(sc):
         if d is not None:
             out.add("C10/" + name, d)
 
-    # 1. identical rebuild
+    # 1. identical rebuild; and a JSON clone of the freshly built simulator (equal inputs by construction)
     pair("rebuild_pair", copy.deepcopy(sc), 0.0)
+    if sc["party"].get("uninterrupted"):
+        out.probe("uninterrupted_world")
+    sc2 = copy.deepcopy(sc)
+    sc2["sim"]["json_clone"] = True
+    pair("json_clone_pair", sc2, 0.0)
     perm_ok = True
     if sorted_party:
         perm_ok = sorted_conclusive(sc, tr)
@@ -171,6 +184,9 @@ def check(sc):
         if [s["id"] for s in st] != [s["id"] for s in sc["network"]["stations"]]:
             nontriv = nontriv or binding
         pair("registration_permuted", sc2, 1e-9)
+        sc3 = copy.deepcopy(sc2)
+        sc3["sim"]["json_clone"] = True
+        pair("json_clone_permuted_pair", sc3, 1e-9)
     # 3. constraint order + term order
     if perm_ok and sc["network"]["constraints"]:
         sc2 = copy.deepcopy(sc)
